@@ -10,6 +10,7 @@ from fractions import Fraction
 import numpy
 
 from .core import Driver, frac
+from .c04_mct import _guarded
 
 LEVEL_TEXT = ("Proof: filtering by any list of statements equals one pass keeping exactly the rows for which every statement "
               "holds (order, multiplicity, fields unchanged), is invariant under statement permutation and grouping, idempotent; "
@@ -20,7 +21,9 @@ LEVEL_TEXT = ("Proof: filtering by any list of statements equals one pass keepin
               "are not (in [event_epoch, t_crit_epoch] and below the completeness magnitude), is idempotent and commutes with statement "
               "and spatial filters; on any catalog it is that cut on the rows in front of the first row later than t_crit; the filter "
               "stage of CatalogForecast.__next__ (filter, apply_mct, filter_spatial) is one pass with the conjunction of the three "
-              "predicates.")
+              "predicates. NaN and infinite values are in the model (IEEE comparison): a NaN attribute satisfies no statement, a "
+              "statement and its complement do not cover such rows, and on finite catalogs the extended filter is the finite one. "
+              "The spatial filter on quadtree regions keeps exactly the events inside a half-open tile.")
 LEVEL_NOTE = ("Statement text parsing (str.split, float(text), datetime.strptime) is not modelled; the harness writes thresholds with "
               "repr(float) so the parsed threshold is the intended double, and passes the parsed civil date fields to the model, "
               "which computes the epoch millisecond itself. The region lookup inside filter_spatial is the exact half-open cell "
@@ -42,12 +45,18 @@ THEOREMS = ["CatFilter.holds_iff", "CatFilter.holds_at_threshold", "CatFilter.ho
             "CatFilter.filterSpatial_eq", "CatFilter.filterSpatial_mem_iff", "CatFilter.filterSpatial_sublist",
             "CatFilter.loadApply_region", "CatFilter.loadApply_no_region", "CatFilter.loadApply_no_filters",
             # apply_mct, filter stage of CatalogForecast.__next__, spatial filter extras (Properties/C04_Mct.lean)
-            "CatFilter.applyMct_eq_loop", "CatFilter.applyMct_error_iff", "CatFilter.mct_eq_prefix",
+            "CatFilter.applyMct_eq_loop", "CatFilter.applyMct_nil", "CatFilter.finding_d37_unrepaired", "CatFilter.mct_eq_prefix",
             "CatFilter.mct_sorted_eq_filter", "CatFilter.mct_mem_iff", "CatFilter.mct_count", "CatFilter.mct_sublist",
             "CatFilter.mct_idem", "CatFilter.applyMct_twice", "CatFilter.mct_comm_rowfilter", "CatFilter.mct_comm_filter",
             "CatFilter.mct_comm_spatial", "CatFilter.filters_preserve_sorted", "CatFilter.filterSpatial_comm_filter",
             "CatFilter.filterSpatial_count", "CatFilter.stepMct_in_place", "CatFilter.next_all_stages", "CatFilter.next_off",
-            "CatFilter.next_mct_raises_on_empty"]
+            "CatFilter.next_mct_empty_ok", "CatFilter.filterSpatialQuad_mem_iff", "CatFilter.filterSpatialQuad_sublist",
+            "CatFilter.filterSpatialQuad_idem", "CatFilter.filterSpatialQuad_comm_filter", "CatFilter.filterSpatialQuad_single_tile",
+            # NaN / infinite attribute values and thresholds (Properties/C04_Nan.lean)
+            "CatFilter.holdsF_nan_attr", "CatFilter.holdsF_nan_threshold", "CatFilter.filterF_eq", "CatFilter.filterF_mem_iff",
+            "CatFilter.nan_row_removed", "CatFilter.holdsF_compl", "CatFilter.compl_both_false_on_nan", "CatFilter.holdsF_inf_attr",
+            "CatFilter.filterF_perm", "CatFilter.filterF_append", "CatFilter.filterF_idem", "CatFilter.holdsF_toF",
+            "CatFilter.filterF_toF"]
 TRUSTED = ["Lean 4.33 kernel", "axioms: propext, Classical.choice, Quot.sound at most",
            "numpy boolean-mask indexing keeps the rows with a true mask, in order (modelled as List.filter)",
            "numpy compares the int64 origin_time column with a float threshold exactly for |t| < 2^53",
@@ -72,8 +81,12 @@ RULE = ("histories of 1..6 calls (filter with string / list / tuple / None state
         "as int / numpy.int64 / float, second call, commutation with statement filters; CatalogForecast.__next__ with every "
         "combination of carried filters / apply_mct / filter_spatial / apply_filters over two passes; filter and filter_spatial "
         "(update_stats, both in_place) incl. calls that keep every row, where the returned catalog must still share no row storage "
-        "with the original. Classes in c04_mct.AWAITING_DECISION (apply_mct on an empty catalog, filter_spatial with a quadtree "
-        "region) are not generated.")
+        "with the original. NaN / +-inf attribute values (25 % of depths) and NaN / inf thresholds through list / shuffled / "
+        "one-by-one / repeated application and statement-complement pairs; sessions of 3-8 steps on two catalogs sharing one "
+        "region object (Cartesian or quadtree) with filter / filter() / filter_spatial / apply_mct in both in_place modes and "
+        "writes of the caller into an event array in between; catalogs from structured arrays in native and non-native byte "
+        "order; catalogs of 65537..131079 events; empty catalogs through apply_mct and the forecast's filter stage. The class in "
+        "c04_mct.AWAITING_DECISION (NaN coordinates with a Cartesian region in filter_spatial) is not generated.")
 
 ATTRS = [("origin_time", "t"), ("latitude", "lat"), ("longitude", "lon"), ("depth", "dep"), ("magnitude", "mag")]
 OPS = [(">", "gt"), ("<", "lt"), (">=", "ge"), ("<=", "le"), ("==", "eq")]
@@ -372,6 +385,7 @@ def py_stmts(sts, form):
     return tuple(texts) if form == "tuple" else list(texts)
 
 
+@_guarded
 def run_history(run, drv, pending, case):
     from csep.core.catalogs import CSEPCatalog
     from csep.core.exceptions import CSEPCatalogException
@@ -532,6 +546,7 @@ def flush(run, drv, pending):
 
 
 # ----------------------------------------------------------------------------- metamorphic checks on the implementation
+@_guarded
 def metamorphic(run, rng):
     from csep.core.catalogs import CSEPCatalog
     n = rng.choice([0, 1, 3, 8, 20, 50])
@@ -584,6 +599,7 @@ def metamorphic(run, rng):
 
 
 # ----------------------------------------------------------------------------- load_catalog(apply_filters=True)
+@_guarded
 def load_case(run, drv, pending_load, rng, tmpdir):
     import csep
     from csep.core.catalogs import CSEPCatalog
@@ -725,7 +741,7 @@ def run(run, rng, tier):
 
 def replay_case(run, drv, pending, case):
     kind = case.get("kind", "history")
-    if kind in ("mct", "next", "extra"):
+    if kind in ("mct", "next", "extra", "nan", "session", "bigfilter"):
         from . import c04_mct
         c04_mct.replay(run, case, Driver)
         return
@@ -814,7 +830,7 @@ def _replay_load(run, case):
 
 
 def replay(run, payload):
-    if payload["case"].get("kind") in ("mct", "next", "extra"):
+    if payload["case"].get("kind") in ("mct", "next", "extra", "nan", "session", "bigfilter"):
         from . import c04_mct
         c04_mct.replay(run, payload["case"], Driver)
         return
